@@ -6,3 +6,8 @@ open Femio.C06
 #print axioms C06_tet2_perms_inverse
 #print axioms C06_tet2_edges
 #print axioms C06_point_data
+#print axioms C06_history_export
+#print axioms C06_history_coherent
+#print axioms C06_export_after_history
+#print axioms C06_exports_invisible
+#print axioms C06_ids_setter_counterexample
